@@ -228,7 +228,24 @@ def specs():
                   P, P, grid_dep=None, skip={'numerical_aperture': 'alias of NA (same property object)'}))
     S.append(Spec('VectorVortexCoronagraph',
                   lambda v: hp.VectorVortexCoronagraph(2, None, v['phase_retardation'], q=8, scaling_factor=4, window_size=8),
-                  {'phase_retardation': [np.pi]}, [P[0], P[1], P[3], P[4]], [P[0], P[1], P[3], P[4]], pol=(0, 1, 2)))
+                  {'phase_retardation': [np.pi]}, [P[0], P[1], P[3], P[4]], [P[0], P[1], P[3], P[4]], pol=(0, 1, 2), dtypes=cplx))
+    # parameters that have no public setter, given as callables of the wavelength / of grid and wavelength at construction
+    def w_ret2(wavelength):
+        return np.pi * 0.75 / wavelength
+
+    def gw_jones(grid, wavelength):
+        one = np.ones(grid.size)
+        return Field(np.array([[one, 0.5j * grid.x / wavelength], [0.25 * grid.y * wavelength, one * (1 - 0.5j)]]), grid)
+
+    def w_jones(wavelength):
+        return np.array([[1.0, 0.5j / wavelength], [0.25 * wavelength, 1 - 0.5j]])
+    S.append(Spec('VectorVortexCoronagraph-chromatic',
+                  lambda v: hp.VectorVortexCoronagraph(2, None, v['phase_retardation'], q=8, scaling_factor=4, window_size=8),
+                  {'phase_retardation': [w_ret2]}, [P[0], P[1], P[3], P[4]], [P[0], P[1], P[3], P[4]], pol=(0, 1, 2), dtypes=cplx))
+    S.append(Spec('JonesMatrixOpticalElement-chromatic', lambda v: hp.JonesMatrixOpticalElement(v['jones_matrix']),
+                  {'jones_matrix': [gw_jones]}, PN, PN, pol=(0, 1, 2), dtypes=cplx))
+    S.append(Spec('JonesMatrixOpticalElement-chromatic-const', lambda v: hp.JonesMatrixOpticalElement(v['jones_matrix']),
+                  {'jones_matrix': [w_jones]}, PN, PN, pol=(0, 1, 2)))
     for sp in S:
         if sp.name.split('-')[0] in ANY_GRID:
             sp.any_grid = True
@@ -346,6 +363,34 @@ def compare_instances(a, b, grid_dep):
                 if d:
                     return 'instance attribute %s: %s' % (n, d)
     return None
+
+
+def owned_fourier(obj, depth=0, seen=None):
+    """The Fourier objects an instance owns: reachable through attributes, lists, dicts and the cached instances of
+    nested agnostic elements (VectorVortexCoronagraph owns propagators that own Fourier transforms)."""
+    import hcipy as hp
+    if seen is None:
+        seen = set()
+    out = []
+    if obj is None or depth > 6 or id(obj) in seen or isinstance(obj, (np.ndarray, np.generic, hp.Grid, str, bytes, int, float, complex)):
+        return out
+    seen.add(id(obj))
+    if isinstance(obj, (list, tuple)):
+        for x in obj:
+            out += owned_fourier(x, depth + 1, seen)
+        return out
+    if isinstance(obj, dict):
+        for x in obj.values():
+            out += owned_fourier(x, depth + 1, seen)
+        return out
+    mod = getattr(type(obj), '__module__', '') or ''
+    if not mod.startswith('hcipy.'):
+        return out
+    if mod.startswith('hcipy.fourier'):
+        out.append(obj)
+    for x in list(getattr(obj, '__dict__', {}).values()):
+        out += owned_fourier(x, depth + 1, seen)
+    return out
 
 
 def near_grid(g, kind, eps):
@@ -472,6 +517,7 @@ class Hist:
         self.counts = {}
         self.pending_setter = None
         self.cell_prev = {}      # instance index -> the transfer-function object its FourierFilter held after its last use
+        self.fourier_seen = {}   # id of an owned Fourier object -> [type name, precisions it was used with, the object]
 
     def count(self, k):
         self.counts[k] = self.counts.get(k, 0) + 1
@@ -744,6 +790,14 @@ class Hist:
                 if d:
                     self.fail('result-differs', '%s on grid #%d at wavelength %r: %s' % (kind, g, wl, d), step)
                 self.pending_setter = None
+                if len(self.handed) > n0:
+                    # which Fourier objects does the instance handed out own, and which precisions has each seen
+                    try:
+                        for fo in owned_fourier(self.handed[n0]):
+                            rec = self.fourier_seen.setdefault(id(fo), [type(fo).__name__, set(), fo])
+                            rec[1].add(CPLX_TAG[dt])
+                    except Exception as e:
+                        self.state_issue('cannot walk the Fourier objects of the instance handed out: %r' % (e,))
                 self.observe(line, 'ok', n0, dt=dt)
                 if d:
                     return
@@ -941,6 +995,19 @@ def directed():
                   'near': [[0, 'weights', 1], [0, 'weights', 3], [0, 'weights', 4]],
                   'ops': [fw(0), fw(N), fw(N + 1), fw(N + 2), bw(N), bw(0), bw(N + 1), fw(0), mut(0, 'weights', 5), fw(0), fw(N),
                           mut(N, 'weights', 2, 1), bw(N), fw(N + 1)]})
+    # one instance (one grid, one wavelength), precision flipped back and forth in both directions and for every kind of
+    # wavefront: every Fourier object the instance owns (MFT matrices + intermediate array, FFT scratch array, filter
+    # transfer function + internal array, the nested propagators of the vector vortex) sees both precisions
+    for name, gs in (('FraunhoferPropagator', (0, 4)), ('FresnelPropagator', (0,)), ('AngularSpectrumPropagator', (1,)),
+                     ('VectorVortexCoronagraph', (0,))):
+        for g in gs:
+            ops = []
+            for pol in (0, 1, 2):
+                for kdir in (fw, bw):
+                    gg = g if (kdir is fw or name != 'FraunhoferPropagator') else F0
+                    ops += [kdir(gg, 0, 'complex128', pol, 11 + pol), kdir(gg, 0, 'complex64', pol, 12 + pol),
+                            kdir(gg, 0, 'complex128', pol, 13 + pol), kdir(gg, 0, 'complex64', pol, 14 + pol)]
+            D.append({'spec': name, 'maxN': None, 'style': 'directed-precision', 'ops': ops})
     # default cache size overflow: 4 grids x 3 wavelengths = 12 > 11 instances
     ov = [fw(g, w) for w in range(3) for g in range(4)]
     D.append({'spec': 'Apodizer', 'maxN': None, 'style': 'directed', 'ops': ov + ov[:3] + [bw(0), bw(1, 2)]})
@@ -1019,6 +1086,11 @@ def random_fft_names(rng, n):
         dims = [int(rng.integers(3, 9)), int(rng.integers(3, 9))]
         q = [qs[int(rng.integers(0, len(qs)))] for _ in range(2)]
         fov = [fovs[int(rng.integers(0, len(fovs)))] for _ in range(2)]
+        for k in range(2):
+            # a Fourier plane without a single sample along an axis (dims * q * fov < 1) is no Fourier object an element
+            # can own (the constructor raises IndexError there: noted in the report, FFT construction is C01's subject)
+            if dims[k] * q[k] * fov[k] < 1:
+                fov[k] = 1
         out.append(gen_fft_name(dims, q, fov, bool(rng.integers(0, 2))))
     return out
 
@@ -1117,11 +1189,13 @@ def check_wavelength_keys(ctx):
     import hcipy as hp
     from fractions import Fraction
     if Fraction(1 + 1e-9) != 1 + Fraction(4503600, 2 ** 52):
-        raise MachineryError('1 + 1e-9 is not the double assumed by theorem base_double_ok')
+        raise MachineryError('1 + 1e-9 is not the double the model executes (Cache.wlBase, theorem wlBase_ok)')
     probe = hp.Magnifier(2.0)
+    probe_grid = hp.make_pupil_grid(4, 1.0)
 
     def real_key(lam):
-        k = probe._get_cache_keys(None, None, lam)      # private: guarded by the caller
+        k = probe._get_cache_keys(probe_grid, None, lam)      # private: guarded by the caller (a grid is given: the key's
+        # wavelength part must not depend on how the element declares its grid dependence)
         if not (isinstance(k, list) and k and isinstance(k[0], tuple) and len(k[0]) == 3):
             raise ValueError('unexpected key shape %r' % (k,))
         return int(k[0][2])
@@ -1132,6 +1206,8 @@ def check_wavelength_keys(ctx):
     n = ctx.scale(3000, 40000)
     n_inst = ctx.scale(300, 3000)
     issues = 0
+    n_diff = ctx.scale(400, 5000)
+    diff_lines, diff_expect = [], []
     for j in range(n):
         style = j % 4
         if style == 0:
@@ -1178,6 +1254,14 @@ def check_wavelength_keys(ctx):
                 ctx.disagree('wavelength-key', {'theorem': 'wavelength_key_shared_close', 'wavelengths': [lam, three],
                                                 'keys': [keys['lam'], keys['three']]})
             ctx.count('wl:key-difference-at-1e-9:%d' % (keys['nine'] - keys['lam']))
+            # the executed rational enclosure of key differences (Cache.wlKeyDiffBounds; theorem wavelength_key_diff_enclosed)
+            if j < n_diff:
+                for name, v in (('far', far), ('near', near), ('nine', nine), ('three', three)):
+                    lo_w, hi_w = (lam, v) if v >= lam else (v, lam)
+                    sign = 1 if v >= lam else -1
+                    fa, fb = Fraction(lo_w), Fraction(hi_w)
+                    diff_lines.append('C05 wldiff %d/%d %d/%d' % (fa.numerator, fa.denominator, fb.numerator, fb.denominator))
+                    diff_expect.append((lam, v, sign * (keys[name] - keys['lam'])))
         # the property's clause on the public interface: wavelengths >= 1e-6 apart never share an instance
         if j < n_inst:
             ctx.case(None, nontrivial_key=('wl-pair', j))
@@ -1200,6 +1284,25 @@ def check_wavelength_keys(ctx):
             if bad:
                 ctx.violation('wavelengths-1e-6-apart-share-instance', 'wavelengths %r and %r (ratio >= 1 + 1e-6): %s' % (lam, far, bad),
                               {'wavelengths': [lam, far]})
+    compare_key_differences(ctx, diff_lines, diff_expect)
+
+
+def compare_key_differences(ctx, diff_lines, diff_expect):
+    from fractions import Fraction
+    out = ctx.model(diff_lines)
+    for line, resp, (a, b, d) in zip(diff_lines, out, diff_expect):
+        ctx.traces_validated += 1
+        m = parse_model(resp) if resp.startswith('ok') else {}
+        try:
+            lo, hi = Fraction(m['lo']), Fraction(m['hi'])
+        except Exception:
+            ctx.disagree('wavelength-key', {'line': line, 'model': resp, 'issue': 'no enclosure returned'})
+            break
+        ctx.count('wl:enclosure-width<=%s' % ('2.5' if hi - lo <= Fraction(5, 2) else ('4' if hi - lo <= 4 else 'more')))
+        if not (lo <= d <= hi):
+            ctx.disagree('wavelength-key', {'theorem': 'wavelength_key_diff_enclosed', 'wavelengths': [a, b], 'code key difference': d,
+                                            'model enclosure': [float(lo), float(hi)]})
+            break
 
 
 def replay_wavelengths(case):
@@ -1228,8 +1331,10 @@ DECO_NAMES = ['GW-mag', 'GW-lens', 'G-only', 'W-only', 'none']
 
 def deco_pool():
     import hcipy as hp
-    return [hp.make_pupil_grid(4, 1.0), hp.make_pupil_grid(4, 1.5), hp.make_pupil_grid(4, 1.0).shifted([0.25, -0.125]),
+    pool = [hp.make_pupil_grid(4, 1.0), hp.make_pupil_grid(4, 1.5), hp.make_pupil_grid(4, 1.0).shifted([0.25, -0.125]),
             hp.make_pupil_grid(6, 1.0), hp.make_pupil_grid([4, 6], [1.0, 1.5]), hp.make_pupil_grid(6, 2.5)]
+    # grids with the coordinates of pool grids 0 and 3 and other weights (ones per point; a per-point variation)
+    return pool + [near_grid(pool[0], 'weights', 1), near_grid(pool[3], 'weights', 3)]
 
 
 def deco_class(name, num):
@@ -1313,6 +1418,7 @@ def run_deco(case):
     pool grid j) | ['bwdout', j, w, seed] (backward on the output grid of the element for pool grid j) |
     ['get', i|None, o|None, w|None] (get_instance with pool grids).  Returns (bad, lines, expect, issues, counts)
     with bad = [(key, what, step)]."""
+    import hcipy as hp
     name, num = case['deco'], int(case['num'])
     cls, Gnostic, kw, gd, wd, out_of = deco_class(name, num)
     pool = deco_pool()
@@ -1339,14 +1445,25 @@ def run_deco(case):
         insts.append(v)
         return len(insts) - 1
 
+    def same_grid(x, g):
+        # `g`: the grid part of a private cache key -- a grid object (unrepaired: found through ==/hash, which ignore the
+        # weights) or the digest of coordinates and weights that repair D505 uses (`_get_grid_key`)
+        if isinstance(g, hp.Grid):
+            return x == g and weights_differ(x, g) is None
+        return key_part(x) == g
+
+    def key_part(x):
+        from hcipy.optics import optical_element as oe
+        return oe._get_grid_key(x) if hasattr(oe, '_get_grid_key') else hash(x)
+
     def gname(g):
         if g is None:
             return '-'
         for j, x in enumerate(pool):
-            if x == g:
+            if same_grid(x, g):
                 return str(j)
         for j, x in enumerate(outs):
-            if x is not None and x == g:
+            if x is not None and same_grid(x, g):
                 return str(100 + j)
         return '?'
 
@@ -1490,6 +1607,11 @@ def deco_directed():
     D.append({'deco': 'GW-mag', 'num': 1, 'ops': [['fwd', 0, 0, 1], ['fwd', 1, 0, 2], ['bwdout', 0, 0, 3], ['fwd', 0, 0, 4], ['bwdout', 0, 0, 5]]})
     D.append({'deco': 'G-only', 'num': 2, 'ops': [['get', None, None, 0], ['get', 0, 1, 0], ['fwd', 0, 1, 1], ['fwd', 0, 2, 2], ['bwdout', 0, 3, 3]]})
     D.append({'deco': 'GW-mag', 'num': 3, 'ops': [['get', 0, None, None], ['get', 0, None, 0], ['get', 0, None, 0], ['get', None, 0, 0]]})
+    # grids 6 / 7 have the coordinates of grids 0 / 3 and other weights: each needs its own element
+    D.append({'deco': 'GW-mag', 'num': 50, 'ops': [['fwd', 0, 0, 1], ['fwd', 6, 0, 2], ['bwdout', 6, 0, 3], ['bwdout', 0, 0, 4], ['fwd', 7, 0, 5],
+                                                   ['fwd', 3, 0, 6], ['get', 6, None, 0], ['get', 0, None, 0]]})
+    D.append({'deco': 'GW-lens', 'num': 2, 'ops': [['fwd', 0, 0, 1], ['fwd', 6, 0, 2], ['bwdout', 0, 0, 3], ['fwd', 3, 1, 4], ['fwd', 7, 1, 5]]})
+    D.append({'deco': 'G-only', 'num': 1, 'ops': [['fwd', 6, 0, 1], ['fwd', 0, 0, 2], ['fwd', 6, 0, 3]]})
     return D
 
 
@@ -1497,12 +1619,16 @@ def deco_gen(rng):
     name = DECO_NAMES[int(rng.integers(0, len(DECO_NAMES)))]
     num = [1, 2, 3, 50][int(rng.integers(0, 4))]
     n = int(rng.integers(3, 14))
-    ng = int(rng.integers(2, 7))
+    ng = int(rng.integers(2, 9))
     nw = int(rng.integers(1, 4))
+    sel = [int(x) for x in rng.permutation(8)[:ng]]
+    if rng.random() < 0.5:
+        # a grid and its twin with equal coordinates and other weights (pool 6 / 7) in one history
+        sel[:2] = [[0, 6], [3, 7]][int(rng.integers(0, 2))]
     ops = []
     for _ in range(n):
         u = rng.random()
-        j, w, seed = int(rng.integers(0, ng)), int(rng.integers(0, nw)), int(rng.integers(0, 1 << 30))
+        j, w, seed = sel[int(rng.integers(0, ng))], int(rng.integers(0, nw)), int(rng.integers(0, 1 << 30))
         if u < 0.5:
             ops.append(['fwd', j, w, seed])
         elif u < 0.75:
@@ -1510,7 +1636,7 @@ def deco_gen(rng):
         elif u < 0.9:
             ops.append(['bwd', j, w, seed])
         else:
-            c = [None, j][int(rng.integers(0, 2))], [None, int(rng.integers(0, ng))][int(rng.integers(0, 2))], [None, w][int(rng.integers(0, 4)) > 0]
+            c = [None, j][int(rng.integers(0, 2))], [None, sel[int(rng.integers(0, ng))]][int(rng.integers(0, 2))], [None, w][int(rng.integers(0, 4)) > 0]
             ops.append(['get', c[0], c[1], c[2]])
     return {'deco': name, 'num': num, 'ops': ops}
 
@@ -1760,6 +1886,201 @@ def check_scratch_load(ctx):
 
 # ---------------------------------------------------------------------------------------------
 
+# ---------------------------------------------------------------------------------------------
+# declared dependences: what make_instance reads (observed through recording proxies) vs what the cache key retains
+# (model: Cache.uncovered / Cache.shippedFamilies; theorems instance_determined_by_key, shipped_families_covered)
+
+DIM_CODE = {'coords': 0, 'weights': 1, 'wavelength': 2}
+FAMILIES = ['FraunhoferPropagator', 'FresnelPropagator', 'AngularSpectrumPropagator', 'Apodizer', 'JonesMatrixOpticalElement',
+            'StepIndexFiber', 'VectorVortexCoronagraph', 'Magnifier']
+
+
+def recording_grid(g, log, on):
+    """A copy of `g` (same class, so every isinstance / is_regular test behaves) that records which of its attributes
+    are read while `on[0]` is set: 'weights' for the weights, 'coords' for anything else.  Copies and grids derived
+    from it through its own methods keep recording."""
+    base = type(g)
+
+    class Rec(base):
+        def __getattribute__(self, name):
+            if on[0] and not (name.startswith('__') and name.endswith('__')):
+                log.add('weights' if name in ('weights', '_weights') else 'coords')
+            return base.__getattribute__(self, name)
+    r = g.copy()
+    r.__class__ = Rec
+    return r
+
+
+def recording_wavelength(wl, log, on):
+    """A float that records arithmetic, comparisons and NumPy ufuncs applied to it while `on[0]` is set."""
+    import operator
+
+    class RecFloat(float):
+        def __array_ufunc__(self, ufunc, method, *inputs, **kwargs):
+            if on[0]:
+                log.add('wavelength')
+            inputs = tuple(float(x) if isinstance(x, RecFloat) else x for x in inputs)
+            return getattr(ufunc, method)(*inputs, **kwargs)
+
+        def __hash__(self):
+            return float.__hash__(self)
+
+    def hook(opname, reverse):
+        fn = getattr(operator, opname)
+
+        def f(self, other):
+            if on[0]:
+                log.add('wavelength')
+            return fn(other, float(self)) if reverse else fn(float(self), other)
+        return f
+    for opname in ('add', 'sub', 'mul', 'truediv', 'pow', 'floordiv', 'mod'):
+        setattr(RecFloat, '__%s__' % opname, hook(opname, False))
+        setattr(RecFloat, '__r%s__' % opname, hook(opname, True))
+    for opname in ('lt', 'le', 'gt', 'ge', 'eq', 'ne'):
+        setattr(RecFloat, '__%s__' % opname, hook(opname, False))
+
+    def un(opname):
+        fn = getattr(operator, opname)
+
+        def f(self):
+            if on[0]:
+                log.add('wavelength')
+            return fn(float(self))
+        return f
+    for opname in ('neg', 'abs', 'pos'):
+        setattr(RecFloat, '__%s__' % opname, un(opname))
+    return RecFloat(wl)
+
+
+def observe_reads(spec, params):
+    """(grid_dependent, wavelength_dependent, key distinguishes weights, dimensions read by make_instance) observed on a
+    new element with the given parameter indices, for one forward and one backward request."""
+    el = spec.make(params)
+    gd, wd = bool(el._grid_dependent), bool(el._wavelength_dependent)
+    log, on = set(), [False]
+    orig = el.make_instance
+
+    def mi(inst, i, o, w):
+        on[0] = True
+        try:
+            return orig(inst, i, o, w)
+        finally:
+            on[0] = False
+    el.make_instance = mi
+    calls = 0
+    errs = []
+    for back in (False, True):
+        g = recording_grid((spec.bwd if back else spec.fwd)[0], log, on)
+        w = recording_wavelength(WLS[0], log, on)
+        try:
+            inst = el.get_instance_data(None if back else g, g if back else None, w)
+            calls += 1
+        except Exception as e:
+            errs.append(repr(e))
+            continue
+        # a result that is handed one of the grid objects the instance holds carries that grid's coordinates and weights
+        try:
+            import hcipy as hp
+            r = (el.backward if back else el.forward)(make_wavefront(g, w, 'complex128', spec.pol[0], 3))
+            held = [v for v in vars(inst).values() if isinstance(v, hp.Grid)]
+            if hasattr(r, 'electric_field') and any(r.electric_field.grid is x for x in held):
+                log.update(('coords', 'weights'))
+        except Exception as e:
+            errs.append(repr(e))
+    if not calls:
+        raise ValueError('no request could be made with recording proxies: %s' % errs)
+    a = spec.fwd[0].copy()
+    b = a.copy()
+    b.weights = weights_variant(a, 1)
+    kw = True
+    if gd:
+        kw = el._get_cache_keys(a, None, WLS[0] if wd else None)[0] != el._get_cache_keys(b, None, WLS[0] if wd else None)[0]
+    return gd, wd, kw, sorted(log)
+
+
+def family_of(el):
+    for klass in type(el).__mro__:
+        if klass.__name__ in FAMILIES:
+            return klass.__name__
+    return None
+
+
+def check_declared_reads(ctx):
+    lines, expect = [], []
+    fams = {}
+    for spec in specs():
+        variants = [{n: 0 for n in spec.values}]
+        for n in spec.values:
+            for idx, val in enumerate(spec.values[n]):
+                if idx and callable(val) and n not in spec.post:
+                    variants.append(dict(variants[0], **{n: idx}))
+        for params in variants:
+            name = spec.name.split('-')[0]
+            try:
+                gd, wd, kw, reads = observe_reads(spec, params)
+            except Exception as e:       # unreadable internals: broken correspondence, the other oracles keep running
+                ctx.disagree('declared-reads', {'spec': spec.name, 'params': params, 'issue': 'cannot observe make_instance: %r' % (e,)})
+                continue
+            ctx.count('reads:%s:%s' % (name, '+'.join(reads) or 'nothing'))
+            covered = {'coords': gd, 'weights': gd and kw, 'wavelength': wd}
+            lost = [d for d in reads if not covered[d]]
+            ctx.case(None, nontrivial_key=('reads', spec.name, json.dumps(params, sort_keys=True)) if reads else None)
+            if lost:
+                ctx.violation('undeclared-dependence %s' % name,
+                              '%s.make_instance reads the %s of the request, which the instance cache key does not retain '
+                              '(grid_dependent=%s, wavelength_dependent=%s, key distinguishes weights: %s): two requests that differ '
+                              'there share one instance' % (name, ' and the '.join(lost), gd, wd, kw),
+                              {'reads': spec.name, 'params': params})
+            lines.append('C05 covers %d %d [%s]' % (gd, wd, ','.join(str(DIM_CODE[d]) for d in reads)))
+            expect.append(('covers', spec.name, 'ok uncovered=[%s]' % ','.join(str(DIM_CODE[d]) for d in lost)))
+            try:
+                fam = family_of(spec.make(params))
+            except Exception:
+                fam = None
+            if fam is None:
+                ctx.disagree('family-table', {'spec': spec.name, 'issue': 'no shipped family (Cache.shippedFamilies) in the MRO'})
+                continue
+            fams.setdefault(fam, []).append((spec.name, gd, wd, reads))
+    for fam, rows in sorted(fams.items()):
+        lines.append('C05 family %s' % fam)
+        expect.append(('family', fam, rows))
+    out = ctx.model(lines)
+    for line, resp, exp in zip(lines, out, expect):
+        ctx.traces_validated += 1
+        if exp[0] == 'covers':
+            if resp != exp[2]:
+                ctx.disagree('declared-reads', {'spec': exp[1], 'line': line, 'code': exp[2], 'model': resp})
+            continue
+        m = parse_model(resp) if resp.startswith('ok') else {}
+        try:
+            declared = set(json.loads(m.get('reads', 'null')) or [])
+        except Exception:
+            declared = None
+        for sname, gd, wd, reads in exp[2]:
+            bad = []
+            if declared is None or m.get('uncovered') != '[]':
+                bad.append('row unreadable or not covered: %r' % (resp,))
+            else:
+                if m.get('grid') != str(int(gd)) or m.get('wl') != str(int(wd)):
+                    bad.append('flags: code grid=%d wl=%d, table grid=%s wl=%s' % (gd, wd, m.get('grid'), m.get('wl')))
+                extra = [d for d in reads if DIM_CODE[d] not in declared]
+                if extra:
+                    bad.append('make_instance reads %s, the table does not list it' % extra)
+            if bad:
+                ctx.disagree('family-table', {'family': exp[1], 'spec': sname, 'issues': bad})
+                break
+
+
+def replay_reads(case):
+    spec = spec_by_name(case['reads'])
+    gd, wd, kw, reads = observe_reads(spec, case['params'])
+    covered = {'coords': gd, 'weights': gd and kw, 'wavelength': wd}
+    lost = [d for d in reads if not covered[d]]
+    if lost:
+        print('  fails: make_instance reads %s; the key retains %s' % (reads, sorted(d for d in covered if covered[d])))
+    return not lost
+
+
 def check_case(ctx, case, lines_out):
     spec = spec_by_name(case['spec'])
     h = Hist(spec, case)
@@ -1857,7 +2178,7 @@ def run(ctx):
     cases = directed()
     per = ctx.scale(24, 400)
     for spec in specs():
-        k = per if spec.name != 'VectorVortexCoronagraph' else max(2, per // 4)
+        k = per if spec.name.split('-')[0] != 'VectorVortexCoronagraph' else max(2, per // 4)
         for j in range(k):
             cases.append(gen_case(ctx.rng, spec, setters[spec.name], big=(ctx.tier == 'thorough' and j % 4 == 0)))
     # every setter at least once, right after use
@@ -1868,7 +2189,21 @@ def run(ctx):
                               'ops': [['fwd', 0, 0, 'complex128', 0, 5], ['bwd', 0, 0, 'complex128', 0, 6], ['set', n, idx],
                                       ['fwd', 0, 0, 'complex128', 0, 5], ['bwd', 0, 0, 'complex128', 0, 6],
                                       ] + ([['set', n, 0], ['fwd', 0, 0, 'complex128', 0, 5]] if n not in spec.post else [])})
+    # every parameter value that is a callable (of the grid, of the wavelength, of both) x several wavelengths and grids on
+    # one object, in both directions, revisiting earlier combinations
+    for spec in specs():
+        for n in spec.values:
+            for idx, val in enumerate(spec.values[n]):
+                if not callable(val) or (idx and n not in setters[spec.name]):
+                    continue
+                f = lambda g, w, sd: ['fwd', g, w, 'complex128', 0, sd]      # noqa: E731
+                b = lambda g, w, sd: ['bwd', g, w, 'complex128', 0, sd]      # noqa: E731
+                ops = ([['set', n, idx]] if idx else []) + [f(0, 0, 21), f(0, 2, 22), f(0, 1, 23), b(0, 2, 24), f(1, 3, 25), f(0, 3, 26),
+                                                            b(1, 0, 27), f(0, 4, 28), f(0, 2, 29), b(0, 0, 30), f(1, 2, 31), f(0, 0, 32)]
+                cases.append({'spec': spec.name, 'maxN': [None, 2][(idx + len(n)) % 2], 'style': 'callable-parameter', 'ops': ops})
+                ctx.count('callable-parameter:%s.%s' % (spec.name, n))
     batch = []
+    owned = {}       # (element, type of an owned Fourier object) -> [objects seen, objects used with both precisions]
     for case in cases:
         h = check_case(ctx, case, batch)
         reqs = set(tuple(op[:3]) for op in case['ops'] if op[0] in ('fwd', 'bwd', 'both'))
@@ -1882,6 +2217,11 @@ def run(ctx):
         for k2, v2 in h.counts.items():
             if k2.startswith(('grid-equal-coordinates', 'key-collision')):
                 ctx.count(k2, v2)
+        for tname, tags, _ in h.fourier_seen.values():
+            owned.setdefault((case['spec'], tname), [0, 0])
+            owned[(case['spec'], tname)][0] += 1
+            if len(tags) > 1:
+                owned[(case['spec'], tname)][1] += 1
         fw_set = set((op[1], op[2]) for op in case['ops'] if op[0] == 'fwd')
         bw_set = set((op[1], op[2]) for op in case['ops'] if op[0] == 'bwd')
         if fw_set & bw_set:
@@ -1892,6 +2232,11 @@ def run(ctx):
         ctx.case({'spec': case['spec'], 'maxN': case['maxN'], 'ops': case['ops'][:6]} if nontrivial else None,
                  nontrivial_key=(case['spec'], case['style'], case['maxN'], len(case['ops']), len(reqs)) if nontrivial else None)
     compare_with_model(ctx, batch)
+    # every kind of Fourier object an element owns must have been driven with both precisions on one instance
+    ctx.extra['owned_fourier_objects'] = {'%s:%s' % k: {'objects': v[0], 'used_with_both_precisions': v[1]} for k, v in sorted(owned.items())}
+    lacking = ['%s:%s' % k for k, v in sorted(owned.items()) if v[1] == 0]
+    if lacking and not ctx.violations:
+        raise MachineryError('no history used these owned Fourier objects with both precisions on one instance: %s' % lacking)
 
     check_wavelength_keys(ctx)
 
@@ -1971,6 +2316,7 @@ def run(ctx):
                 break
     check_scratch_load(ctx)
     check_decorator(ctx)
+    check_declared_reads(ctx)
 
 
 def replay(ctx, case):
@@ -1982,6 +2328,12 @@ def replay(ctx, case):
             return False
     if 'deco' in case:
         return replay_deco(case)
+    if 'reads' in case:
+        try:
+            return replay_reads(case)
+        except Exception as e:
+            print('  fails: raises %r' % (e,))
+            return False
     if 'czt' in case:
         bad, _, _ = run_czt(case['czt'])
         if bad:
